@@ -327,7 +327,13 @@ void h_RoundTrip(void)
 """
 
 proofs += [
-    Proof("Extract_completeness", [("HttpTraceContext::ExtractContextFromTraceHeaders", 2)], harness=H_COMPLETE, unwind=57,
+    Proof("Extract_completeness_q", [("HttpTraceContext::ExtractContextFromTraceHeaders", 2)],
+          harness=H_COMPLETE.replace("h_Extract_completeness", "h_Extract_completeness_q").replace("n <= XC_MAXLEN", "n <= 57")
+          .replace("char *b = malloc(n); __CPROVER_assume(b != NULL);", "char b[57];"), unwind=57,
+          loop_contracts=False, complete_unwind_note="as Extract_completeness, header length 55..57 (quick tier); the thorough tier covers every length",
+          property_level=("h_Extract_completeness", ".*unwind.*"), timeout=900,
+          desc="completeness for header lengths 55..57 (every length up to 65536 in the thorough tier)"),
+    Proof("Extract_completeness", [("HttpTraceContext::ExtractContextFromTraceHeaders", 2)], harness=H_COMPLETE, unwind=57, tier="thorough",
           loop_contracts=False, complete_unwind_note="under the well-formedness assumption every loop ends within 56 iterations; unwinding assertions prove it",
           property_level=("h_Extract_completeness", ".*unwind.*"), timeout=1500,
           desc="completeness: WF header => valid context with the encoded ids/flags (any length up to 65536)"),
@@ -490,6 +496,6 @@ refuters = {"TraceFlags_ToLowerBase16": refute_flags, "HexToInt": refute_hextoin
 for _n in ("TraceId_ToLowerBase16", "SpanId_ToLowerBase16", "InjectImpl", "Inject"):
     refuters[_n] = refute_inject
 for _n in ("IsValidHex", "HexToBinary", "SplitString", "Trim3", "Trim1", "sv_eq", "ExtractContextFromTraceHeaders",
-           "ExtractImpl", "Extract", "Extract_completeness"):
+           "ExtractImpl", "Extract", "Extract_completeness", "Extract_completeness_q"):
     refuters[_n] = refute_extract
 refuters["RoundTrip"] = refute_inject
